@@ -105,9 +105,8 @@ def pointer_roles(fb):
         for b in fb.bodies(common.SHM):
             if not (b.name == 'new' and (b.impl_self or '').endswith(side) and b.defkind != 'Closure'):
                 continue
-            eng = common.mk_engine(fb, inline_depth=8, loop_unroll=8, no_inline=(
-                _is_reader_open if side == 'ShmWriter' else None))
-            for p in eng.run(b):
+            eng, ps = common.run_unrolled(fb, b, inline_depth=8, no_inline=(_is_reader_open if side == 'ShmWriter' else None))
+            for p in ps:
                 if not (p.kind == 'return' and p.value[0] == 'agg' and p.value[2] == 'Ok' and p.value[3]):
                     continue
 
